@@ -95,7 +95,14 @@ func (m *tkMod) newEnv() *lib.Env {
 	m.k[e] = k
 	return e
 }
-func (m *tkMod) setup(e *lib.Env) {}
+// a second possible fee token, of scale 6, issued under the default parameters
+func (m *tkMod) setup(e *lib.Env) {
+	out := e.Deliver(&tokenv1.MsgIssueToken{Symbol: "feetok", Name: "fee token", Scale: 6, MinUnit: "ufeetok",
+		InitialSupply: 100000000000, MaxSupply: 1000000000000, Mintable: true, Owner: e.Actors[0].String()})
+	if !out.OK() {
+		panic("token setup: " + out.Err)
+	}
+}
 func (m *tkMod) initGenesis(e *lib.Env) lib.Outcome {
 	gs := tokenv1.GenesisState{Params: tkGo(m.p)}
 	return e.Try(func(ctx sdk.Context) error { token.InitGenesis(ctx, *m.k[e], gs); return nil })
@@ -235,9 +242,15 @@ func tkSweep() []func(*TKParams) {
 		v := v
 		fs = append(fs, func(p *TKParams) { p.Fee.A = v })
 	}
-	for _, d := range []int{0, 2, 3} {
+	for _, d := range []int{0, 2, 3, 5} {
 		d := d
 		fs = append(fs, func(p *TKParams) { p.Fee.D = d })
+	}
+	// the fee token of scale 6: small, large and the largest validated amount (2^195 - 1), and just beyond
+	b195 := new(big.Int).Lsh(big.NewInt(1), 195)
+	for _, a := range []string{"1", "3", "60000", new(big.Int).Lsh(big.NewInt(1), 150).String(), new(big.Int).Sub(b195, big.NewInt(1)).String(), b195.String()} {
+		a := a
+		fs = append(fs, func(p *TKParams) { p.Fee = Coin{5, sp(a)} })
 	}
 	return fs
 }
@@ -265,6 +278,9 @@ func genTK(r *lib.Rand, h *History, i int) {
 			p.Fee.A = genAmount(r, "60000")
 		case 2:
 			p.Fee.D = genDenom(r, 1)
+			if r.Chance(1, 2) {
+				p.Fee.D = 5
+			}
 		case 3:
 			p.Ratio = genRate(r, "100000000000000000")
 		case 4:
